@@ -23,22 +23,24 @@ REPO = os.environ.get("FLACVERIF_REPO", "/repo")
 VERIF = os.path.dirname(os.path.dirname(os.path.abspath(__file__)))
 KANI_DIR = os.path.join(VERIF, "kani")
 
-# harness file name -> source file (relative to repo root)
+# harness file name -> (source file relative to repo root, name of the appended child module)
 HARNESS_FILES = {
-    "bitsink.rs": "src/bitsink.rs",
-    "rice.rs": "src/rice.rs",
-    "coding.rs": "src/coding.rs",
-    "lpc.rs": "src/lpc.rs",
-    "arrayutils.rs": "src/arrayutils.rs",
-    "source.rs": "src/source.rs",
-    "config.rs": "src/config.rs",
-    "error.rs": "src/error.rs",
-    "par.rs": "src/par.rs",
-    "bitrepr.rs": "src/component/bitrepr.rs",
-    "datatype.rs": "src/component/datatype.rs",
-    "parser.rs": "src/component/parser.rs",
-    "decode.rs": "src/component/decode.rs",
-    "verify.rs": "src/component/verify.rs",
+    "bitsink.rs": ("src/bitsink.rs", "verif"),
+    "rice.rs": ("src/rice.rs", "verif"),
+    "coding.rs": ("src/coding.rs", "verif"),
+    "lpc.rs": ("src/lpc.rs", "verif"),
+    "arrayutils.rs": ("src/arrayutils.rs", "verif"),
+    "source.rs": ("src/source.rs", "verif"),
+    "config.rs": ("src/config.rs", "verif"),
+    "error.rs": ("src/error.rs", "verif"),
+    "bitrepr.rs": ("src/component/bitrepr.rs", "verif"),
+    "datatype.rs": ("src/component/datatype.rs", "verif"),
+    "datatype_c18.rs": ("src/component/datatype.rs", "verif_c18"),
+    "parser.rs": ("src/component/parser.rs", "verif"),
+    "decode.rs": ("src/component/decode.rs", "verif"),
+    "verify.rs": ("src/component/verify.rs", "verif"),
+    "coding_sel.rs": ("src/coding.rs", "verif_sel"),
+    "bitrepr_sub.rs": ("src/component/bitrepr.rs", "verif_sub"),
 }
 
 
@@ -193,7 +195,7 @@ def build(dest, havoc=False, with_contracts=True, only_files=None, extra=None):
     info["added_files"].append("src/verif_support.rs")
 
     # O1 ---------------------------------------------------------------------------------------
-    for hname, rel in HARNESS_FILES.items():
+    for hname, (rel, modname) in HARNESS_FILES.items():
         hpath = os.path.join(KANI_DIR, hname)
         if not os.path.exists(hpath):
             continue
@@ -207,7 +209,7 @@ def build(dest, havoc=False, with_contracts=True, only_files=None, extra=None):
             text += "\n" + extra[hname]
         block = ("\n// ---- flacverif O1: harness module appended by /verif/lib/overlay.py ----\n"
                  "#[cfg(any(kani, flacenc_verif_replay))]\n#[allow(warnings)]\n"
-                 "pub(crate) mod verif {\n    use super::*;\n    use crate::verif_support::*;\n"
+                 "pub(crate) mod " + modname + " {\n    use super::*;\n    use crate::verif_support::*;\n"
                  "    #[cfg(not(kani))]\n    use crate::verif_support::kani;\n"
                  + text + "\n}\n")
         with open(target, "a") as f:
